@@ -185,5 +185,45 @@ func checkEVMTxBlockedTarget(tx *Transaction, logHeight int64, txhash string) er
 		tlog.Error("CheckTxBlockedAccount hit", "txhash", txhash, "height", logHeight, "pos", "evmPara", "addr", addr)
 		return fmt.Errorf("%w: evm transfer to %s", ErrBlockedAccount, addr)
 	}
+	return checkProxyExecTxBlockedTarget(tx, action, logHeight, txhash)
+}
+
+// checkProxyExecTxBlockedTarget 代理执行交易(EVM-->txpayload-->chain33 tx)的真实交易编码在 Para 中,
+// 执行器 execTx 会解出真实交易并替换外层交易后才做 checkTx, 因此区块执行时能拦住真实交易的接收方;
+// 但 mempool 入口与 AddTxsToBlock 只看到外层交易(To 为代理地址), 不解出真实交易就会放行。
+// 这里按执行器相同的方式(eth 签名 + Para 可解码为交易)解出真实交易, 检查其接收方维度;
+// 发送方与外层交易共用签名, 已由外层 from 判定覆盖。仅向下解一层, 不递归。
+func checkProxyExecTxBlockedTarget(tx *Transaction, action *EVMContractAction4Chain33, logHeight int64, txhash string) error {
+	if !IsEthSignID(tx.GetSignature().GetTy()) || len(action.GetPara()) == 0 {
+		return nil
+	}
+	realTx := new(Transaction)
+	if err := Decode(action.GetPara(), realTx); err != nil || len(realTx.GetExecer()) == 0 {
+		return nil
+	}
+	if to := realTx.GetTo(); IsBlockedAccount(to) {
+		tlog.Error("CheckTxBlockedAccount hit", "txhash", txhash, "height", logHeight, "pos", "proxyTo", "addr", to)
+		return fmt.Errorf("%w: proxy exec to %s", ErrBlockedAccount, to)
+	}
+	if realTo := realTx.GetRealToAddr(); realTo != realTx.GetTo() && IsBlockedAccount(realTo) {
+		tlog.Error("CheckTxBlockedAccount hit", "txhash", txhash, "height", logHeight, "pos", "proxyRealTo", "addr", realTo)
+		return fmt.Errorf("%w: proxy exec real to %s", ErrBlockedAccount, realTo)
+	}
+	if string(GetRealExecName(realTx.GetExecer())) != evmExecName {
+		return nil
+	}
+	inner := new(EVMContractAction4Chain33)
+	if err := Decode(realTx.GetPayload(), inner); err != nil {
+		return nil
+	}
+	if contractAddr := inner.GetContractAddr(); contractAddr != "" && IsBlockedAccount(contractAddr) {
+		tlog.Error("CheckTxBlockedAccount hit", "txhash", txhash, "height", logHeight, "pos", "proxyEvmContractAddr", "addr", contractAddr)
+		return fmt.Errorf("%w: proxy exec evm contract addr %s", ErrBlockedAccount, contractAddr)
+	}
+	if para := inner.GetPara(); IsBlockedAccountRaw(para) {
+		addr := common.ToHex(para)
+		tlog.Error("CheckTxBlockedAccount hit", "txhash", txhash, "height", logHeight, "pos", "proxyEvmPara", "addr", addr)
+		return fmt.Errorf("%w: proxy exec evm transfer to %s", ErrBlockedAccount, addr)
+	}
 	return nil
 }
